@@ -278,6 +278,45 @@ def read_subint(self, isub, scloffs=True, weights=True):
         data *= self.read_weights(isub)
     return data
 ''',
+    "read_weights": '''
+def read_weights(self, isub):
+    weights = self._fits["SUBINT"].data[isub]["DAT_WTS"]
+    return weights[: self.sub_hdr.nchans]
+''',
+    "read_scales": '''
+def read_scales(self, isub):
+    scales = self._fits["SUBINT"].data[isub]["DAT_SCL"]
+    scales = scales[: self.sub_hdr.npol * self.sub_hdr.nchans]
+    return scales.reshape(self.sub_hdr.npol, self.sub_hdr.nchans)
+''',
+    "read_offsets": '''
+def read_offsets(self, isub):
+    offsets = self._fits["SUBINT"].data[isub]["DAT_OFFS"]
+    offsets = offsets[: self.sub_hdr.npol * self.sub_hdr.nchans]
+    return offsets.reshape(self.sub_hdr.npol, self.sub_hdr.nchans)
+''',
+    "read_subint_pol": '''
+def read_subint_pol(self, isub, poln_select=1, scloffs=True, weights=True):
+    sdata = self.read_subint(isub, scloffs=scloffs, weights=weights)
+    if self.sub_hdr.poln_state == "Coherence":
+        scale = 1.0 / np.sqrt(2.0)
+        data_shape = (self.sub_hdr.subint_samples, self.sub_hdr.nchans)
+        if poln_select == 1:
+            data = np.zeros(data_shape, dtype=np.float32)
+            data = data + (sdata[:, 0, :] + sdata[:, 1, :]) * scale
+        elif poln_select == 2:
+            data = sdata[:, 0:2, :]
+        elif poln_select == 3:
+            data = np.zeros(data_shape, dtype=np.float32)
+            data = data + (sdata[:, 0, :] + sdata[:, 1, :]) * scale
+        elif poln_select == 4:
+            data = sdata
+    elif self.sub_hdr.poln_state == "Stokes":
+        data = sdata[:, 0, :]
+    elif self.sub_hdr.poln_state == "Intensity":
+        data = sdata[:, 0, :].squeeze()
+    return data
+''',
     "compute_online_moments_basic": '''
 def compute_online_moments_basic(array, moments, startflag=0):
     nchans = moments.shape[0]
